@@ -284,7 +284,14 @@ func (st *Store) Query(req abci.RequestQuery) (res abci.ResponseQuery) {
 		subspace := req.Data
 		res.Key = subspace
 
-		iterator := types.KVStorePrefixIterator(st, subspace)
+		// iterate the latest committed version, not the working tree: the working tree also
+		// holds the uncommitted writes of the block in progress
+		iTree, err := tree.GetImmutable(tree.Version())
+		if err != nil {
+			res.Log = err.Error()
+			break
+		}
+		iterator := newIAVLIterator(iTree, subspace, types.PrefixEndBytes(subspace), true)
 		for ; iterator.Valid(); iterator.Next() {
 			KVs = append(KVs, types.KVPair{Key: iterator.Key(), Value: iterator.Value()})
 		}
